@@ -179,6 +179,12 @@ F2 = [("add", T(["S", i, "4", "*"])) for i in ("a", "e1", "g1", "o1", "u1")] + \
 F1 = F1 + [("add", T(["P", "z", "A+,B+,p+", "*"])), ("add", T(["P", "z", "B-,A-,r+", "*"])),
            ("add", T(["P", "z", "A+,C+,x-", "*"])), ("add", T(["L", "C", "+", "p", "+", "*"])),
            ("add", T(["C", "B", "+", "r", "-", "0", "*"]))]
+# the header API: a value of another datatype / an invalid value for a tag
+# that is already defined, a second value for a single-definition tag
+HADD = [("hadd", "xx", "a", "Z"), ("hadd", "xx", 1.5, "f"), ("hadd", "xx", "a", None),
+        ("hadd", "TS", 7, "i"), ("hadd", "TS", "x", "Z"), ("hadd", "xx", "[1]", "J")]
+F1 = F1 + HADD
+F2 = F2 + HADD
 U1 = universe.G1_CORE + [T(["H", "TS:i:1"]), T(["H", "xx:i:1"]),
                          T(["L", "B", "+", "C", "+", "*", "ID:Z:x"])]
 U2 = universe.G2_CORE + [T(["H", "TS:i:1"]), T(["H", "xx:i:1"]), T(["U", "u3", "a", "xx:i:1"]),
